@@ -43,6 +43,15 @@ def _r141(ctx: Ctx) -> None:
         if isinstance(n, ast.Assign) and len(n.targets) == 1 and isinstance(n.targets[0], ast.Name) \
                 and isinstance(n.value, ast.BinOp) and isinstance(n.value.op, ast.FloorDiv):
             quot.setdefault(n.targets[0].id, []).append(n)
+    # v = w where w is (only) a quotient: v is that quotient too (a loop-invariant hoisted under another name)
+    for n in stmts:
+        if isinstance(n, ast.Assign) and len(n.targets) == 1 and isinstance(n.targets[0], ast.Name) \
+                and isinstance(n.value, ast.Name) and len(quot.get(n.value.id, ())) == 1 and n.targets[0].id not in quot:
+            src_q = quot[n.value.id][0]
+            fake = ast.copy_location(ast.Assign(targets=[ast.Name(id=n.targets[0].id, ctx=ast.Store())], value=src_q.value), n)
+            ast.fix_missing_locations(fake)
+            fake.lineno = n.lineno
+            quot.setdefault(n.targets[0].id, []).append(fake)
     # q, r = divmod(A, B): q is a quotient and r the matching remainder
     dm = {}
     for n in stmts:
@@ -98,8 +107,14 @@ def _r141(ctx: Ctx) -> None:
             for c in ast.iter_child_nodes(p):
                 pm[c] = p
         g = pm.get(n)
-        ok_g = isinstance(g, ast.If) and isinstance(g.test, ast.Compare) and len(g.test.ops) == 1 \
-            and isinstance(g.test.ops[0], ast.Eq)
+        gtest = g.test if isinstance(g, ast.If) else None
+        if isinstance(gtest, ast.Name):
+            # a named condition (`is_last = i == last`): look at its single definition
+            gdefs = [s_.value for s_ in stmts if isinstance(s_, ast.Assign) and len(s_.targets) == 1
+                     and isinstance(s_.targets[0], ast.Name) and s_.targets[0].id == gtest.id]
+            gtest = gdefs[0] if len(gdefs) == 1 else gtest
+        ok_g = isinstance(g, ast.If) and isinstance(gtest, ast.Compare) and len(gtest.ops) == 1 \
+            and isinstance(gtest.ops[0], ast.Eq)
         ctx.ob('R14.1', site_of(mi, g if g is not None else n), f'run_parallel: remainder of `{tgt}` goes to exactly one share',
                ok_g, f'{norm_stmt(n)} is not guarded by an equality test selecting a single share',
                key=f'run_parallel|one-share[{tgt}]', facts=ast.unparse(g.test) if isinstance(g, ast.If) else None)
@@ -145,7 +160,14 @@ def _r142(ctx: Ctx) -> None:
     for var in ('result_json_file', 'log_file'):
         ctx.need(var in defs, 'R14.2', site, f'{var} not found')
         d = defs[var][0]
-        names = {x.id for x in ast.walk(d.value) if isinstance(x, ast.Name)}
+        # transitively through local definitions (a label computed from the task index and used in both names)
+        names, work = set(), [d.value]
+        while work:
+            e = work.pop()
+            for x in ast.walk(e):
+                if isinstance(x, ast.Name) and x.id not in names:
+                    names.add(x.id)
+                    work.extend(dd.value for dd in defs.get(x.id, ()) if dd is not d)
         ctx.ob('R14.2', site_of(mi, d), f'run_parallel: {var} depends on the task index', 'i_task' in names,
                f'{norm_stmt(d)} does not mention i_task: tasks would share a file', key=f'run_parallel|{var}')
     # the file handed to run_file derives from result_json_file
